@@ -15,7 +15,7 @@
      cfq   : Seq(pkt)   packets the Crazyflie queued for the host, in queueing order
      got   : Seq(pkt)   packets returned by RadioDriver.receive_packet (non-None)
      link  : Seq({"A","L","E"})  main-loop transmissions acknowledged / unacknowledged, and link
-                        error reports, in order of occurrence
+                        error reports, in order of occurrence (from the last "A" on: LinkAppend)
      echo  : BOOLEAN    the peer's exact echo ff 05 01 was handed to the driver as the reply to one
                         of its start-up frames ("the peer confirmed it during link start-up")
      slUsed: BOOLEAN    some main-loop frame carried sequence bits (header bits 3,2 # 11)
@@ -24,7 +24,7 @@
      failed: BOOLEAN    a link error has been reported (the histories acc/cf/cfq/got are those
                         "short of a link failure": the monitor freezes them at the first report)
    Readings fixed in DESIGN 3.1(1) and reports/C01.md. *)
-EXTENDS Naturals, Sequences
+EXTENDS Naturals, Sequences, FiniteSets
 
 \* ---------------------------------------------------------------- bytes
 Bit2(h) == (h \div 4) % 2
@@ -102,11 +102,15 @@ DownExactlyOnceInOrder(h) == Claimed(h) => IsPrefix(h.got, h.cfq)
 UpStep(h)   == Claimed(h) => LastInPlace(h.cf, h.acc)
 DownStep(h) == Claimed(h) => LastInPlace(h.got, h.cfq)
 
-\* number of consecutive unacknowledged transmissions ending at index k of l (reports skipped)
-RECURSIVE RunAt(_, _)
-RunAt(l, k) == IF k = 0 THEN 0
-               ELSE IF l[k] = "E" THEN RunAt(l, k - 1)
-               ELSE IF l[k] = "L" THEN 1 + RunAt(l, k - 1) ELSE 0
+\* The link history may be kept from the last acknowledged transmission on (LinkAppend): the
+\* clauses below never look further back.
+LinkAppend(l, x) == IF x = "A" THEN <<"A">> ELSE Append(l, x)
+\* number of consecutive unacknowledged transmissions ending at index k of l (reports skipped);
+\* no recursion: loss runs of hundreds of transmissions must not exhaust TLC's stack
+LastAck(l, k) == IF \E i \in 1..k : l[i] = "A"
+                 THEN CHOOSE i \in 1..k : l[i] = "A" /\ \A j \in (i + 1)..k : l[j] # "A"
+                 ELSE 0
+RunAt(l, k) == Cardinality({i \in (LastAck(l, k) + 1)..k : l[i] = "L"})
 \* a report is owed right after the transmission (index k) that made the run reach n, and only then
 OwedAt(l, k, n) == k > 0 /\ l[k] = "L" /\ RunAt(l, k) = n
 \* item i of the link history is legal after items 1..i-1
@@ -123,9 +127,9 @@ LinkQuiescentOK(l, n) == ~OwedAt(l, Len(l), n)
 SafelinkOnlyIfConfirmed(h) == (h.slUsed \/ h.nrFalse) => h.echo
 
 \* bounded reading of "reaches": once nothing more is submitted or queued and DrainNeed(h)
-\* consecutive transmissions were acknowledged, everything has arrived (the monitor decides
-\* `drained` from the trace)
-DrainNeed(h) == 2 * (Len(h.acc) + Len(h.cfq)) + 6
+\* consecutive transmissions were acknowledged, everything has arrived (every acknowledged
+\* transmission can carry one packet each way; the monitor decides `drained` from the trace)
+DrainNeed(h) == Len(h.acc) + Len(h.cfq) + 4
 UpComplete(h)   == Claimed(h) /\ ~h.failed => h.cf = h.acc
 DownComplete(h) == Claimed(h) /\ ~h.failed => h.got = h.cfq
 
